@@ -154,3 +154,40 @@ Theorem C15_reentered_class_inhabited :
   f3 (fst (run_asyncioH fresh_inst (ex_rec_root (Raise 7) 3) false heap0)) = false.
 Proof. exact ex_shared_instance_leaks. Qed.
 Print Assumptions C15_reentered_class_inhabited.
+
+(* T10 (round s8)  explicit asyncio_fns in the SUBTREE of a running coroutine.  [AfNative q]: the function comes
+   with the user's own `async def` (body q: plain synchronous calls, `await g.asyncio(..)`, return / raise);
+   `.asyncio()` calls it as it is - it does not enter AsyncioMode - so what q sees is the flag of its awaiter, and the
+   flag of a converted coroutine stays on around `await resolve_awaitables(..)` (T3: every leaf of a yield is awaited
+   with the flag of the yielding body; T4: that flag is unchanged after every step).  (a) awaited where the flag is
+   on, a plain synchronous call `g(args)` in q gets RuntimeError, nothing of g runs, q goes on with the exception;
+   (b) for ANY converted parent (function or method, started with the flag on or off), any yielded structure and
+   any position of such a child in it (alone, in a tuple / list / dict at any depth): the child's body sees the flag
+   on, its call is refused, no plain synchronous call runs a callee anywhere in the parent's run, and the flag after
+   the parent equals the flag before; (c) at any depth: every body below a converted root - explicit asyncio_fns
+   included - sees the flag on and no plain synchronous call runs (ev_ok); (d) conversely, awaited from a context
+   outside asyncio mode the same call runs its callee (the observation tells the two apart); (e) the class is
+   inhabited (dict of list + bare, a method parent), by computation; (f) an explicit asyncio_fn that awaits
+   `g.asyncio()` where the asynq body yields `g.asynq()` is inside T1's class [wf]. *)
+Theorem C15_explicit_asyncio_fn_in_subtree :
+  (forall c p g k, cafn c = AfNative (Sync false g k) ->
+      call_asyncio drive c p true =
+      (let r := drive (k (Err E_RUNTIME)) true in
+       (o3 r, f3 r, EvBody (cid c) true :: EvSync SRefused :: t3 r ++ [EvDone (cid c) (o3 r)]))) /\
+  (forall c0 s k0 fl c p g k,
+      converted c0 -> In (LCall c p) (yleaves s) -> cafn c = AfNative (Sync false g k) ->
+      let R := call_asyncio drive c0 (Yield s k0) fl in
+      In (EvBody (cid c) true) (t3 R) /\ In (EvSync SRefused) (t3 R) /\ ~ In (EvSync SRan) (t3 R) /\ f3 R = fl) /\
+  (forall a fl, converted_leaf a -> Forall ev_ok (t3 (run_asyncio a fl))) /\
+  (forall c p g k, cafn c = AfNative (Sync false g k) ->
+      In (EvBody (cid c) false) (t3 (call_asyncio drive c p false)) /\
+      In (EvSync SRan) (t3 (call_asyncio drive c p false))) /\
+  (o3 (run_asyncio ex_native_root false)
+   = Ok (VDict [(0%Z, VList [VTuple [VInt 1; VInt E_RUNTIME]; VNone]); (1%Z, VTuple [VInt 1; VInt E_RUNTIME])]) /\
+   fst (run_seq ex_native_root)
+   = Ok (VDict [(0%Z, VList [VTuple [VInt 0; VInt 1]; VNone]); (1%Z, VTuple [VInt 0; VInt 1])]) /\
+   o3 (run_asyncio (ex_sync_child 2) false) = Ok (VTuple [VInt 0; VInt 1]) /\
+   o3 (run_asyncio (ex_sync_child 2) true) = Ok (VTuple [VInt 1; VInt E_RUNTIME])) /\
+  (wf ex_await_prog /\ o3 (drive ex_await_prog false) = Ok (VTuple [VList [VInt 3]; VNone])).
+Proof. exact explicit_asyncio_fn_in_subtree. Qed.
+Print Assumptions C15_explicit_asyncio_fn_in_subtree.
